@@ -35,7 +35,7 @@ def run(ctx):
     if b0ok != "b0_ok":
         ctx.violation({"what": "the built-in definitions of SchemaBuilder::new() no longer satisfy bi_b0_ok: the hypothesis of "
                                "C13_extension_commutes does not hold for the real initial state", "observed": b0ok}, no_input=True)
-    n = 400 if ctx.tier == "quick" else 15000
+    n = 1500 if ctx.tier == "quick" else 15000
     raw = []
     for name, text in corpus_texts("C13"):
         # corpus file: chunks separated by a line `---`, optionally followed by `=== moved` and the moved text
